@@ -11,6 +11,7 @@ INVARIANT IdsSmallestFree
 INVARIANT ReturnedWhenDue
 INVARIANT StatusOfLast
 INVARIANT NoOverWait
+INVARIANT PollOnlyWhenDue
 INVARIANT NoStuckEvent
 INVARIANT TtyAtPrompt
 INVARIANT TtyInFg
